@@ -2,7 +2,7 @@
    Model: Lex/LexerRT.v (go_lexer.go.tmpl: Next, rewind, keyword switch, handleInvalidToken); the regex-level
    specification is Lex/Deriv.v (C09). *)
 From Coq Require Import List ZArith Bool.
-From TM Require Import Lex.Tables Lex.Scan Lex.LexerRT Lex.LexerRT_proofs.
+From TM Require Import Lex.Tables Lex.Scan Lex.LexerRT Lex.LexerRT_proofs Lex.LexerMaps Lex.LexerMaps_proofs.
 Import ListNotations.
 Local Open Scope Z_scope.
 
@@ -31,11 +31,38 @@ Theorem C11_keyword_switch_other : forall lx act hash text subcases mask,
   kw_switch lx act hash text = act.
 Proof. exact kw_switch_other. Qed.
 
-(* NOT proved (partial): rune_class_lookup (tmRuneClass array / mapRune over CompressedMap = plain symbol-map lookup;
-   the model uses the plain lookup and every generated lexer is compared with it, including lexers whose map is
-   compressed), and next_spec (LexerRT.next_tok = token of the regex-level specification).  Both are checked on every
-   run: the generated lexer's token stream is compared with the LexerRT model on the real tables and, independently,
-   with the stream the rules define (Deriv.spec_scan repeated, space rules skipped, forced one-character progress). *)
+(* rune_class_lookup, array part.  Model Lex/LexerMaps.v: Tables.SymbolArr (tmRuneClass), Tables.CompressedMap
+   (tmRuneRanges), mapRune (binary search) and the class lookup at the top of the DFA loop.  For EVERY symbol map as
+   lex.Compile builds it (first Start 0, strictly increasing Starts) and every character ch >= 0: if the map ends at
+   or below 2048 (the lexer carries tmRuneClass only) — or, for larger maps, if ch < 256 — the generated lookup
+   (array, else the last target) is the plain symbol-map lookup used by Scan and by the LexerRT model. *)
+Theorem C11_rune_class_lookup_array : forall m ch, sorted_map m -> 0 <= ch ->
+  (last_start m <= 2048 \/ ch < 256) ->
+  rune_class (rune_tables_of m) ch = lookup_sym m ch.
+Proof. exact rune_class_lookup_array. Qed.
+
+(* rune_class_lookup, mapRune part.  For EVERY list of ranges that passes the boolean ranges_sortedb (ascending,
+   disjoint; evaluated on the generated tmRuneRanges of every lexer and synthetic map on each run), every default and
+   every c: the binary search returns the value of the range containing c (Vals[c - Lo], else DefaultVal), and the
+   default when no range contains c. *)
+Theorem C11_map_rune_finds_the_range : forall ranges lb d c, ranges_sortedb lb ranges = true ->
+  (forall k, 0 <= k < Z.of_nat (length ranges) -> holds ranges k c -> map_rune ranges d c = ce_val (rng ranges k) c) /\
+  ((forall k, 0 <= k < Z.of_nat (length ranges) -> ~ holds ranges k c) -> map_rune ranges d c = d).
+Proof. intros ranges lb d c H. apply map_rune_spec. exact (sortedb_sorted ranges lb H). Qed.
+
+(* NOT proved (partial): rune_class_lookup for ch >= 256 of maps beyond 2048 needs the correctness of the
+   CompressedMap builder (consume / emit with the strike and count > 8 rules): "the ranges emitted for m hold exactly
+   the non-default values of m".  It is modelled (compressed_map) and checked on every run: the model's arrays and
+   ranges equal the ones of lex.Tables.SymbolArr / CompressedMap for the tables of every generated lexer and for
+   thousands of synthetic maps, and looking characters up through the implementation's own tables equals the plain
+   lookup at every segment boundary and its neighbourhood.  next_spec (LexerRT.next_tok = token of the regex-level
+   specification) is not proved either; both streams are compared on every run. *)
+
+Example C11_maps_example :
+  let m := [(0, 1); (65, 2); (91, 1); (3000, 3); (3001, 1); (70000, 4); (70010, 1)] in
+  sorted_map m /\ ranges_sortedb 256 (compressed_map m 256) = true /\
+  forallb (fun ch => rune_class (rune_tables_of m) ch =? lookup_sym m ch) [0; 64; 65; 90; 91; 255; 256; 2999; 3000; 3001; 69999; 70000; 70009; 70010; 1114111] = true.
+Proof. vm_compute. repeat split; try reflexivity; try (intro H; discriminate H). Qed.
 
 Example C11_switch_example :
   let lx := mkLexer (mkTables false [(0, 1)] 2 [0] [-1; -1] []) [] [] 1
@@ -47,3 +74,5 @@ Proof. vm_compute. repeat split; reflexivity. Qed.
 Print Assumptions C11_keyword_switch_sound.
 Print Assumptions C11_keyword_switch_complete.
 Print Assumptions C11_keyword_switch_other.
+Print Assumptions C11_rune_class_lookup_array.
+Print Assumptions C11_map_rune_finds_the_range.
